@@ -1100,10 +1100,9 @@ func stress(run *vh.Run) {
 	run.Notes["stress_glob_cache_size_4_n_after"] = n
 	run.Notes["stress_glob_cache_size_4_map_entries_after"] = len(mkeys)
 	run.Notes["extra_evaluations"] = served
-	if n > 4 || len(mkeys) > 4 {
-		run.Add("glob-conc-stress", vh.App("CGlobConc", "4", strconv.Itoa(G), strconv.Itoa(n), strconv.Itoa(len(mkeys)), "0", "0"),
-			map[string]interface{}{"size": 4, "goroutines": G, "n_after": n, "map_entries_after": len(mkeys), "where": "mixed stress"})
-	}
+	// the shared cache of the mixed stress must be within its bound (panics are reported above)
+	run.Add("glob-conc-stress", vh.App("CGlobConc", "4", strconv.Itoa(G), strconv.Itoa(n), strconv.Itoa(len(mkeys)), "0", "0"),
+		map[string]interface{}{"size": 4, "goroutines": G, "n_after": n, "map_entries_after": len(mkeys), "where": "mixed stress"})
 }
 
 func min(a, b int) int {
